@@ -8,46 +8,33 @@ import (
 )
 
 func init() {
-	verifHarnesses["HarnessC17"] = HarnessC17
+	verifHarnesses["HarnessC17BB"] = HarnessC17BB
 }
 
-// HarnessC17: a = {client: 0 tunnel, 1 router, 2 group layer, 3 tunnel through handleTunnelReq (UDP),
-// 4 the same in TCP mode, 5/6 a tunnel client built by the real NewTunnel (UDP/TCP) fed through its
-// socket; k telegrams; consumer: 0 always
-// waiting, 1 absent during the burst, 2 takes one telegram then stalls, 3 takes one telegram, stalls and resumes
-// in the middle of the burst}. The server side
-// accepts m1..mk in order; the application must see them in that order.
-func HarnessC17(a []int) {
-	client, k, mode := a[0], a[1], a[2]
+func c17Msgs(k int) []cemi.Message {
 	msgs := make([]cemi.Message, k)
 	for i := range msgs {
 		msgs[i] = &cemi.LDataInd{LData: cemi.LData{Control2: cemi.Control2GroupAddr, Destination: uint16(i + 1),
 			Data: &cemi.AppData{Command: cemi.GroupValueWrite, Data: []byte{byte(i)}}}}
 	}
-	var order []int
-	gate := make(chan struct{})
+	return msgs
+}
+
+// HarnessC17BB: a = {client, k telegrams, consumer mode} as HarnessC17 (zz_verif_c17_wb.go), for the
+// clients that are built by their real constructors and fed through their sockets - 1 router
+// (NewRouter), 5/6 tunnel (NewTunnel, UDP/TCP), 7 group tunnel (NewGroupTunnel: order of the group
+// events). No unexported identifier of the clients is named here.
+func HarnessC17BB(a []int) {
+	client := a[0]
 	var inbound <-chan cemi.Message
+	var events <-chan GroupEvent
 	var push func(cemi.Message)
 	switch client {
-	case 0:
-		conn := vTunnel(newVSock(), false)
-		inbound, push = conn.inbound, conn.pushInbound
 	case 1:
-		// the real client behind its constructor: indications enter through the socket, the real
-		// serve loop hands them on (no unexported field of Router is named here)
 		r, in := newRouterEnv(2, 0)
 		inbound = r.Inbound()
 		push = func(m cemi.Message) { in <- &knxnet.RoutingInd{Payload: m} }
-	case 3, 4:
-		conn := vTunnel(newVSock(), client == 4)
-		conn.channel = 9
-		var seq uint8
-		inbound = conn.inbound
-		push = func(m cemi.Message) {
-			conn.handleTunnelReq(&knxnet.TunnelReq{Channel: 9, SeqNumber: seq, Payload: m}, &seq)
-		}
 	case 5, 6:
-		// the real tunnel client behind its constructor (5 UDP, 6 TCP): requests enter through the socket
 		conn, g, c := newBBTunnel(client == 6)
 		var seq uint8
 		inbound = conn.Inbound()
@@ -56,10 +43,27 @@ func HarnessC17(a []int) {
 			seq++
 		}
 	default:
-		ch := make(chan cemi.Message)
-		inbound = ch
-		push = func(m cemi.Message) { ch <- m }
+		gt, g, c := newBBGroupTunnelCh()
+		var seq uint8
+		events = gt.Inbound()
+		push = func(m cemi.Message) {
+			g.in <- &knxnet.TunnelReq{Channel: c, SeqNumber: seq, Payload: m}
+			seq++
+		}
 	}
+	c17Core(a, inbound, events, push)
+}
+
+// c17Core: the server side accepts m1..mk in order (through push); the application must see them in
+// that order, whatever the consumer does (mode: 0 always waiting, 1 absent during the burst, 2 takes
+// one telegram then stalls, 3 takes one, stalls and resumes in the middle of the burst). events is
+// set when the application reads group events instead of cEMI messages.
+func c17Core(a []int, inbound <-chan cemi.Message, events <-chan GroupEvent, push func(cemi.Message)) {
+	client, k, mode := a[0], a[1], a[2]
+	msgs := c17Msgs(k)
+	var order []int
+	gate := make(chan struct{})
+	group := events != nil
 	consume := func(next func() (int, bool)) {
 		verifDaemon()
 		n := 0
@@ -75,9 +79,7 @@ func HarnessC17(a []int) {
 			n++
 		}
 	}
-	if client == 2 {
-		events := make(chan GroupEvent)
-		go serveGroupInbound(inbound, events)
+	if group {
 		go consume(func() (int, bool) {
 			ev, ok := <-events
 			return int(ev.Destination), ok
@@ -91,7 +93,7 @@ func HarnessC17(a []int) {
 			return int(m.(*cemi.LDataInd).Destination), true
 		})
 	}
-	if client == 2 {
+	if group {
 		go func() {
 			for _, m := range msgs {
 				push(m)
@@ -108,14 +110,14 @@ func HarnessC17(a []int) {
 			push(m)
 		}
 	}
-	if !(mode == 3 && client != 2) {
+	if !(mode == 3 && !group) {
 		close(gate)
 	}
 	verifQuiesce()
 	verifAssert("C17.all_delivered", len(order) == k)
 	for i, id := range order {
 		switch {
-		case client == 2:
+		case group:
 			verifAssert("C17.group.order", id == i+1)
 		case mode == 0:
 			verifAssert("C17.ready.order", id == i+1)
